@@ -187,7 +187,7 @@ def subFold : List Scalar → Nat → Nat
   | s :: r, n => subFold r (alignUp (n + s.size) s.size)
 
 /-- the closure `subType(subs, left)`; `structAlign` is `info.Align` -/
-def subType (structAlign : Nat) (subs : List Scalar) (left : Bool) : RegTy :=
+def subTypeLegacy (structAlign : Nat) (subs : List Scalar) (left : Bool) : RegTy :=
   match subs with
   | [s] => s.regTy
   | _ =>
@@ -196,9 +196,9 @@ def subType (structAlign : Nat) (subs : List Scalar) (left : Bool) : RegTy :=
     else .int (alignUp (subFold subs 0) structAlign)
 
 /-- the general 8 < size ≤ 16 branch -/
-def splitClassify (align : Nat) (types : List Scalar) : PassKind :=
-  .coerce2 (subType align (types.take (splitLoop types 0 0)) true)
-           (subType align (types.drop (splitLoop types 0 0)) false)
+def splitClassifyLegacy (align : Nat) (types : List Scalar) : PassKind :=
+  .coerce2 (subTypeLegacy align (types.take (splitLoop types 0 0)) true)
+           (subTypeLegacy align (types.drop (splitLoop types 0 0)) false)
 
 /-- the size ≤ 8 branch: `IntType(size*8)` unless `types[0]` and `types[1]` are both `float` -/
 def smallClassify (size : Nat) (types : List Scalar) : PassKind :=
@@ -206,7 +206,7 @@ def smallClassify (size : Nat) (types : List Scalar) : PassKind :=
   | .f32 :: .f32 :: _ => .coerce .v2f32
   | _ => .coerce (.int size)
 
-def getTypeInfo (size align : Nat) (types : List Scalar) : PassKind :=
+def getTypeInfoLegacy (size align : Nat) (types : List Scalar) : PassKind :=
   if types.length ≥ 2 then
     if size > 16 then .memory
     else if size ≤ 8 then smallClassify size types
@@ -214,16 +214,16 @@ def getTypeInfo (size align : Nat) (types : List Scalar) : PassKind :=
       match types with
       | [a, b] =>
         if a.size = 8 ∨ b.size = 8 then .coerce2 a.regTy b.regTy
-        else splitClassify align types
-      | _ => splitClassify align types
+        else splitClassifyLegacy align types
+      | _ => splitClassifyLegacy align types
   else .direct
 
 /-- `Transformer.GetTypeInfo` for amd64 (`SkipEmptyParams() = true`): zero-size types first, then the classifier -/
-def classifyV (v : View) (isRet : Bool) : PassKind :=
+def classifyLegacyV (v : View) (isRet : Bool) : PassKind :=
   if v.size = 0 then (if isRet then .direct else .void)
-  else getTypeInfo v.size v.align v.types
+  else getTypeInfoLegacy v.size v.align v.types
 
-def classify (t : CType) (isRet : Bool) : PassKind := classifyV t.view isRet
+def classifyLegacy (t : CType) (isRet : Bool) : PassKind := classifyLegacyV t.view isRet
 
 /-- a coerce type llgo cannot build: `ctx.IntType(0)` (LLVM crashes in code generation) -/
 def PassKind.wellFormed : PassKind → Bool
@@ -240,9 +240,9 @@ is ≥ 8 and the second half is `IntType((Size-8)*8)`.  Kept next to the model o
 check can tell which of the two the working tree implements (the correspondence accepts exactly one of them
 for ALL inputs). -/
 
-def splitIndexReal (elems : List Elem) : Nat := (elems.takeWhile fun e => e.1 < 8).length
+def splitIndex (elems : List Elem) : Nat := (elems.takeWhile fun e => e.1 < 8).length
 
-def subTypeFixed (size : Nat) (subs : List Scalar) (left : Bool) : RegTy :=
+def subType (size : Nat) (subs : List Scalar) (left : Bool) : RegTy :=
   match subs with
   | [s] => s.regTy
   | _ =>
@@ -250,11 +250,11 @@ def subTypeFixed (size : Nat) (subs : List Scalar) (left : Bool) : RegTy :=
     else if left then .int 8
     else .int (size - 8)
 
-def splitClassifyFixed (v : View) : PassKind :=
-  .coerce2 (subTypeFixed v.size (v.types.take (splitIndexReal v.elems)) true)
-           (subTypeFixed v.size (v.types.drop (splitIndexReal v.elems)) false)
+def splitClassify (v : View) : PassKind :=
+  .coerce2 (subType v.size (v.types.take (splitIndex v.elems)) true)
+           (subType v.size (v.types.drop (splitIndex v.elems)) false)
 
-def getTypeInfoFixed (v : View) : PassKind :=
+def getTypeInfo (v : View) : PassKind :=
   if v.types.length ≥ 2 then
     if v.size > 16 then .memory
     else if v.size ≤ 8 then smallClassify v.size v.types
@@ -262,13 +262,13 @@ def getTypeInfoFixed (v : View) : PassKind :=
       match v.types with
       | [a, b] =>
         if a.size = 8 ∨ b.size = 8 then .coerce2 a.regTy b.regTy
-        else splitClassifyFixed v
-      | _ => splitClassifyFixed v
+        else splitClassify v
+      | _ => splitClassify v
   else .direct
 
-def classifyFixedV (v : View) (isRet : Bool) : PassKind :=
+def classifyV (v : View) (isRet : Bool) : PassKind :=
   if v.size = 0 then (if isRet then .direct else .void)
-  else getTypeInfoFixed v
+  else getTypeInfo v
 
 /-! ## The rewritten signature (`transformFuncType`) and LLVM's x86-64 convention for it -/
 
@@ -291,7 +291,7 @@ def lowerParamC (cls : View → Bool → PassKind) (v : View) : List LArg :=
   | .coerce2 r1 r2 => [.scalar r1, .scalar r2]
   | .memory => [.byval v.size v.align]
 
-def lowerParamV (v : View) : List LArg := lowerParamC classifyV v
+def lowerParamV (v : View) : List LArg := lowerParamC classifyLegacyV v
 
 inductive LRet where
   | void | sret | regs (rs : List RegTy)
@@ -305,7 +305,7 @@ def lowerRetC (cls : View → Bool → PassKind) (v : View) : LRet :=
   | .coerce2 r1 r2 => .regs [r1, r2]
   | .memory => .sret
 
-def lowerRetV (v : View) : LRet := lowerRetC classifyV v
+def lowerRetV (v : View) : LRet := lowerRetC classifyLegacyV v
 
 inductive Loc where
   | gpr (i : Nat)      -- parameters: i-th of RDI RSI RDX RCX R8 R9; results: i-th of RAX RDX
@@ -367,7 +367,7 @@ def implRetC (cls : View → Bool → PassKind) (r : Option View) : RetPlace :=
     | .sret => .sret
     | .regs rs => .regs (ccArgs (rs.map .scalar) ⟨0, 0, 0⟩).1
 
-def implRet (r : Option View) : RetPlace := implRetC classifyV r
+def implRet (r : Option View) : RetPlace := implRetC classifyLegacyV r
 
 /-- where every eightbyte of every argument ends up on the current tree -/
 def implPlaceV (ret : Option View) (params : List View) : Placement :=
